@@ -631,6 +631,10 @@ class Batch:
     def add(self, line: str, op: str, inp: Any, expected: str) -> None:
         self.req.append(line)
         self.exp.append((op, inp, expected))
+        if op == "model.getobj":
+            # the same read with the stream branch delegated to C03's `Filters.streamRead` (ObjParser.getobjS)
+            self.req.append("model.getobjS" + line[len("model.getobj"):])
+            self.exp.append(("model.getobjS", inp, expected))
 
     def flush(self) -> None:
         if self.req and self.ctx.driver is not None:
